@@ -93,6 +93,8 @@ pub fn gen_args(r: &mut Rng, op: i64, max_n: usize) -> (Vec<f64>, String) {
                      _ => {}
                  }
                  let mut v = vec![r.cad().abs() + 0.01, p.len() as f64]; v.extend(flat(&low)); v.extend(flat(&up)); (v, name.to_string()) }
+        // 410: loft between profiles of different lengths (the Rust asserts)
+
         403 => { let (p, name) = small_profile(r);
                  // revolve profiles live at x > 0
                  let off = 6.0 + r.uniform(0.0, 20.0); let q: Vec<P> = p.iter().map(|c| (c.0 + off, c.1)).collect();
